@@ -77,3 +77,16 @@ Theorem C16_insert_local : forall t k v h k' h',
   needs_grow t = false -> pos (cap t) h' <> pos (cap t) h -> get (insert t k v h) k' h' = get t k' h'.
 Proof. exact get_other_slot. Qed.
 Print Assumptions C16_insert_local.
+
+(* The fill counter that drives growth never under-counts: in every reachable table (any capacity,
+   hashes, history -- including the growths, which keep the caller's counter as coded) the number
+   of occupied slots is at most [num_filled], and the table has exactly 2^cap slots.  So a growth
+   is never later than the occupancy requires and positions are always in range. *)
+Theorem C16_fill_counter_sound : forall c ops,
+  let t := final (lru_new c) ops in
+  length (tbl t) = 2 ^ cap t /\ occupied_count t <= num_filled t.
+Proof. exact final_OccInv. Qed.
+Check C16_fill_counter_sound : forall c ops,
+  let t := final (lru_new c) ops in
+  length (tbl t) = 2 ^ cap t /\ occupied_count t <= num_filled t.
+Print Assumptions C16_fill_counter_sound.
